@@ -84,11 +84,22 @@ def main():
                 m = re.search(r"replay=(\S+)", v)
                 if m and os.path.exists(os.path.join(VERIF, m.group(1))):
                     shutil.copy(os.path.join(VERIF, m.group(1)), os.path.join(out, "replay_%s.json" % c))
+                    try:
+                        rp = json.load(open(os.path.join(VERIF, m.group(1))))
+                        what = rp.get("signature") or ", ".join(rp.get("no_longer_checks", [])[:3])
+                        kind = "oracle" if rp.get("kind") == "oracle" else rp.get("kind", "?")
+                        extra = " (no-failing-input-found)" if "no-failing-input-found" in v else ""
+                        meta["caught_by"] = "%s %s: `%s`%s" % (c, kind, str(what)[:90], extra)
+                    except Exception:
+                        pass
     finally:
         sh(["git", "-C", "/repo", "checkout", "--", "."])
         rc, o = sh(["git", "-C", "/repo", "status", "--porcelain"])
         assert o.strip() == "", "/repo not restored: " + o
     meta["detected_by"] = sorted(k for k, v in res.items() if v["exit"] == 1)
+    if not meta["detected_by"]:
+        meta.pop("caught_by", None)
+    meta.setdefault("first_run", {k: v["exit"] for k, v in res.items()})
     json.dump(meta, open(meta_path, "w"), indent=1, sort_keys=True)
 
 
